@@ -6,7 +6,20 @@ use crate::simalloc::{Placement, Plan};
 use crate::w1_ops::*;
 use serde_json::Value;
 
+fn valid(case: &Case) -> bool {
+    match script_of(case) {
+        Some(s) => {
+            let m = s.min_align;
+            m.is_power_of_two() && m <= 16 && s.uniform.map(|a| a.is_power_of_two() && a >= m && a <= 16).unwrap_or(true)
+        }
+        None => true,
+    }
+}
+
 fn reproduces(case: &Case, sig: &str, ctx: &Ctx) -> bool {
+    if !valid(case) {
+        return false;
+    }
     let res = run_case(case, ctx);
     res.violations.iter().any(|v| v.sig == sig)
 }
@@ -132,7 +145,7 @@ fn shrink_leaves(case: &Case, sig: &str, ctx: &Ctx) -> Case {
     let mut paths = Vec::new();
     leaves(&v, String::new(), &mut paths);
     for p in paths {
-        if p.ends_with("/seed") || p.contains("/placement") {
+        if p.ends_with("/seed") || p.contains("/placement") || p.ends_with("/min_align") || p.ends_with("/uniform") {
             continue;
         }
         let orig = match v.pointer(&p) {
